@@ -304,7 +304,8 @@ def run(chk):
         upd = {f["q"] for f in rec["fields"] if f["name"].startswith("updated_")}
         for fn in db.fns(cls + "::clearRefinement"):
             chk.saw(fn)
-            ws = set(eff.closure(fn))
+            # what is written only when no points are loaded (derived structure of the needed points that are being dropped) cannot change loaded data
+            ws = set(eff.closure(fn, skip_node=skip_when_empty))
             want = {cls + "::needed"} | upd
             neff += 1
             ws = {x.rsplit("::", 1)[-1] for x in ws}
